@@ -58,8 +58,6 @@ def Stmt.isDML : Stmt → Bool
   | .insertSession .. | .insertMsg .. | .updateCounter .. | .updateBoth .. | .deleteFrom .. => true
   | _ => false
 
-def Bound.param : Bound → Int | .int n => n | .text _ => 0
-
 /-- parameters in binding order; a parameter that is not an int is represented by `0` -/
 def Stmt.params : Stmt → List Int
   | .insertSession .. | .selectSession .. => [0, 0]
@@ -98,7 +96,8 @@ def Stmt.run (s : Stmt) (j : Journal) : Journal × SRes :=
   | .deleteFrom key seq dir => (delFrom j key seq dir, .done)
   | .selectRange key dir lo hi =>
     (match lo.eval, hi.eval with
-     | .unmodelled, _ | _, .unmodelled => (j, .unmodelled)
+     | .unmodelled, _ => (j, .unmodelled)
+     | _, .unmodelled => (j, .unmodelled)
      | l, u => (j, .msgs (selRange j key dir l u)))
   | .selectAll ks d => (j, .rows (selAll j ks d))
 
@@ -176,21 +175,23 @@ def excOf : SRes → Kind
   | .overflow => .overflow
   | _ => .internal
 
+/-- `next(self.cursor)` on the SELECT of the load path -/
+def loadRes : SRes → Res
+  | .sessRows (r :: _) => .handle (handleOf r)
+  | .sessRows [] => .raised .stopIteration
+  | r => .raised (excOf r)
+
 def createOrLoadP (t s : String) : Prog Res :=
   .exec (.insertSession t s) fun
     | .rowid id => .commit (.ret (.handle ⟨id, t, s, 1, 1⟩))
-    | .integrity =>
-      .exec (.selectSession t s) fun
-        | .sessRows (r :: _) => .ret (.handle (handleOf r))
-        | .sessRows [] => .ret (.raised .stopIteration)
-        | r => .ret (.raised (excOf r))
+    | .integrity => .exec (.selectSession t s) fun r => .ret (loadRes r)
     | r => .ret (.raised (excOf r))
 
-def sessionsP : Prog Res :=
-  .exec .selectSessions fun
-    | .sessRows rs =>
-      .ret (.dict (rs.foldl (fun d r => dictSet d (r.target, r.sender) (handleOf r)) []))
-    | r => .ret (.raised (excOf r))
+def sessionsRes : SRes → Res
+  | .sessRows rs => .dict (rs.foldl (fun d r => dictSet d (r.target, r.sender) (handleOf r)) [])
+  | r => .raised (excOf r)
+
+def sessionsP : Prog Res := .exec .selectSessions fun r => .ret (sessionsRes r)
 
 /-- `except sqlite3.IntegrityError` around INSERT, UPDATE and commit -/
 def persistExc : SRes → Kind
@@ -223,24 +224,29 @@ def setSeqNumP (h : Handle) (out inn : Option Int) : Prog Res :=
           | r => .ret (.set h2 (some (excOf r)))
       | r => .ret (.set h2 (some (excOf r)))
 
+def recoverRes : SRes → Res
+  | .msgs ms => .msgs ms
+  | .unmodelled => .unmodelled
+  | r => .raised (excOf r)
+
 def recoverP (h : Handle) (dir : Dir) (lo hi : Bound) : Prog Res :=
-  .exec (.selectRange h.key dir lo hi) fun
-    | .msgs ms => .ret (.msgs ms)
-    | .unmodelled => .ret .unmodelled
-    | r => .ret (.raised (excOf r))
+  .exec (.selectRange h.key dir lo hi) fun r => .ret (recoverRes r)
+
+def recoverMsgRes : SRes → Res
+  | .msgs (m :: _) => .msg (some m)
+  | .msgs [] => .msg none
+  | .unmodelled => .unmodelled
+  | r => .raised (excOf r)
 
 def recoverMsgP (h : Handle) (dir : Dir) (seq : Bound) : Prog Res :=
-  .exec (.selectRange h.key dir seq seq) fun
-    | .msgs (m :: _) => .ret (.msg (some m))
-    | .msgs [] => .ret (.msg none)
-    | .unmodelled => .ret .unmodelled
-    | r => .ret (.raised (excOf r))
+  .exec (.selectRange h.key dir seq seq) fun r => .ret (recoverMsgRes r)
+
+def getAllRes : SRes → Res
+  | .rows rs => .rows rs
+  | r => .raised (excOf r)
 
 def getAllP (keys : Option (List Int)) (dir : Option Dir) : Prog Res :=
-  let keys := match keys with | some [] => none | k => k
-  .exec (.selectAll keys dir) fun
-    | .rows rs => .ret (.rows rs)
-    | r => .ret (.raised (excOf r))
+  .exec (.selectAll (match keys with | some [] => none | k => k) dir) fun r => .ret (getAllRes r)
 
 def Op.prog : Op → Prog Res
   | .createOrLoad t s => createOrLoadP t s
